@@ -106,8 +106,15 @@ func discharge(obls []*Obligation, opt dischargeOpts) []*Verdict {
 	wg.Wait()
 	// undecided queries are retried one at a time on an otherwise idle machine with a generous limit, so that
 	// load (this run's own parallelism or anything else on the box) cannot turn a provable obligation into an alarm
+	// The retry phase has a budget of its own (at most 16 queries, 4 minutes): a tree on which hundreds of queries are
+	// undecided is not going to be rescued one query at a time, and the check has to end.
+	retried, retryStart := 0, time.Now()
 	for _, v := range order {
+		if retried >= 16 || time.Since(retryStart) > 4*time.Minute {
+			break
+		}
 		if v.Status == "unknown" && v.Query != "trivial" && len(v.Query) <= 8<<20 {
+			retried++
 			v.Abstract = ""
 			o2 := opt
 			o2.timeoutS = opt.timeoutS * 6
